@@ -19,7 +19,7 @@ def jobs2d(rng, tier):
     L = []
     # QR: cap-1, cap, cap+1 of version x level x mode (all in thorough, seeded subset in quick)
     combos = [(v, l, m) for v in range(1, 41) for l in range(4) for m in (1, 2, 3)]
-    if tier == "quick":
+    if tier == "quick" and not os.environ.get("VERIF_SEARCH_HARDER"):
         rng.shuffle(combos)
         combos = combos[:40] + [(1, 0, 1), (9, 2, 3), (10, 2, 3), (26, 1, 2), (27, 1, 2), (40, 0, 1), (40, 3, 3)]
     for (v, l, m) in combos:
